@@ -230,9 +230,20 @@ class ProgGen:
                 args.append(self.rng.choice(c) if c and self.rng.random() < 0.8 else 'shrc')
                 continue
             r = self.rng.random()
+            narrower = {'LONG': ['INTEGER'], 'SINGLE': ['INTEGER'], 'DOUBLE': ['INTEGER', 'LONG', 'SINGLE']}.get(pt, [])
             if r < 0.5:
                 lv, _ = self.lvalue(scope, lambda x: x == pt, create=True)
                 args.append(lv if self.rng.random() < 0.8 else f'({lv})')
+            elif r < 0.65 and narrower:
+                # an expression that is nearly an lvalue, of another numeric type: it is passed by value and converted
+                # (whatever a folder or a code generator may reduce it to)
+                at = self.rng.choice(narrower)
+                lv, _ = self.lvalue(scope, lambda x: x == at, create=True)
+                args.append(self.rng.choice(['+{}', '({})', '{} + 0', '+({})', '0 + {}', '{} * 1', '+ +{}']).format(lv))
+            elif r < 0.72:
+                lv, _ = self.lvalue(scope, lambda x: x == pt, create=True)
+                args.append(self.rng.choice(['+{}', '+({})', '{} + 0' if pt != 'STRING' else '{} + ""']).format(lv)
+                            if pt != 'STRING' else f'{lv} + ""')
             else:
                 args.append('(' + self.expr_of(scope, pt, 1) + ')')
         if sd['func']:
@@ -263,7 +274,8 @@ class ProgGen:
             if cs:
                 sd = self.rng.choice(cs)
                 args = self.call_text(scope, sd)
-                if self.rng.random() < 0.5:
+                if self.rng.random() < 0.5 or (args and args[0].startswith('+')):
+                    # (a bare call whose first argument begins with a sign would read as an expression)
                     return [f'CALL {sd["name"]}' + (f'({", ".join(args)})' if args else '')]
                 return [(f'{sd["name"]} ' + ', '.join(args)).strip()]
             return [self.print_stmt(scope)]
